@@ -216,9 +216,23 @@ def run_one(case, work):
                 pass
 
     threading.Thread(target=watchdog, daemon=True).start()
+    import logging
+
+    class _Grab(logging.Handler):       # failures the submitter logs instead of raising (raise_errors=False)
+        def __init__(self):
+            super().__init__(level=logging.ERROR)
+            self.msgs = []
+
+        def emit(self, record):
+            self.msgs.append(record.getMessage()[:300])
+
+    grab = _Grab()
+    logging.getLogger("pydra").addHandler(grab)
     try:
         with Submitter(worker=case["kind"], cache_root=work / "cache", **kw) as sub:
             res = sub(BatchAdd(x=1))
+        if grab.msgs:
+            obs["worker_failure_logged"] = grab.msgs[:3]
         if res.errored:
             obs.update(verdict="error", etype="errored-result", msg="")
         else:
@@ -338,6 +352,10 @@ def evaluate(case, obs):
             pr["known_id"] = case["finding"]
             pr["asbuilt"] = case["asbuilt"][0]
         problems.append(pr)
+    if obs["verdict"] == "complete" and obs.get("worker_failure_logged"):
+        problems.append({"what": "the worker reported a failure for a job the scheduler completed (logged and swallowed by the "
+                                 "submitter because the result exists)", "expected": "complete without a worker failure",
+                         "observed": obs["worker_failure_logged"]})
     if obs["verdict"] == "complete" and obs.get("out") != 2:
         problems.append({"what": "reported complete with a wrong result", "expected": 2, "observed": obs.get("out")})
     for a in argvs:
